@@ -57,7 +57,7 @@ func textInDomain(s string) bool {
 
 func fmtConfigs(full bool) string {
 	var cs []string
-	for _, ind := range []string{"", " ", "\t", "    ", " \t"} {
+	for _, ind := range []string{"", " ", "\t", "    ", " \t", "\n"} {
 		for _, comp := range []bool{false, true} {
 			if full {
 				for _, od := range []bool{false, true} {
@@ -207,6 +207,12 @@ func (c *Ctx) runFormatBatch(k fmtKind, inputs []string, st *fmtStats, tame ...b
 			default:
 				sig = k.tag + ":roundtrip-crash"
 				what = fmt.Sprintf("input %q cfg %s: %s", in, cfg, r)
+			}
+			if k.tag != "q" && strings.HasPrefix(cfg, "0a") && (p[0] == "tree-differs" || p[0] == "not-a-fixpoint") {
+				// recorded finding: under an indent that contains a line terminator the lines of a block
+				// description are re-indented with line breaks, which BlockStringValue() does not strip
+				// (theorem C13_description_newline_indent_counterexample)
+				sig = k.tag + ":description-changed-under-line-break-indent"
 			}
 			st.rt[sig]++
 			if i < len(tame) && tame[i] {
